@@ -84,7 +84,9 @@ Definition icase_ok (x : icase) : bool :=
       all2 dump_ok (lives c earliest [] incs) dumps
   | CRpc c receipts txs txs_idx blocks counts logs =>
       let d := run c in
-      forallb (fun q => opt_eqb rview_eqb (rpc_receipt c d (fst q)) (snd q)) receipts
+      (* the hypotheses of the theorems hold of the real consensus results (these chains are not mutated) *)
+      chain_hyps c
+      && forallb (fun q => opt_eqb rview_eqb (rpc_receipt c d (fst q)) (snd q)) receipts
       && forallb (fun q => opt_eqb tview_eqb (rpc_tx_by_hash c d (fst q)) (snd q)) txs
       && forallb (fun q => let '(h, i, o) := q in opt_eqb tview_eqb (rpc_tx_by_block_index c d h i) o) txs_idx
       && forallb (fun q => bview_eqb (rpc_block c d (fst q)) (snd q)) blocks
